@@ -66,6 +66,10 @@ def shape_blog(cfg):
                          if cfg.get('class_names') else {},
                          # excl_fk: the foreign-key column is excluded, the relationship built on it is not
                          **({'exclude': ['article_id']} if cfg.get('excl_fk') else {})))))
+        if cfg.get('one2one'):
+            # a scalar (one-to-one style) relationship read from the side WITHOUT the foreign key, over the same
+            # foreign key as Article.tags; read-only for the application, reflected onto the version class
+            Article.first_tag = sa.orm.relationship(Tag, uselist=False, viewonly=True)
         Label = type('Label', (Base,), dict(
             __tablename__='label',
             id=sa.Column(sa.Integer, primary_key=True, autoincrement=False),
@@ -1072,15 +1076,22 @@ def run_program(env, cfg, prog, record=True, plain=False, fault=None, emulate_ac
                         outcomes.append('skip')
                         continue
                     a.notes.append(nt)
+                elif kind == 'bulkdel':
+                    # ['bulkdel', cls, key]: the row is removed behind the session's back (bulk DELETE without
+                    # synchronisation); the object stays in the session, expired after the next commit
+                    s.query(classes[op[1]]).filter_by(**pkdict(op[1], op[2])).delete(synchronize_session=False)
                 elif kind == 'rawpartial':
                     # ['rawpartial', article]: a Core DELETE on the association table that names only ONE of its
                     # columns (all links of an article): the package cannot identify the rows and leaves the statement
                     # alone (twin-only histories: what matters is that the application's statement runs)
                     tbl = env.assoc[0]
                     s.execute(tbl.delete().where(tbl.c.article_id == sa.bindparam('article_id')), {'article_id': op[1]})
-                elif kind in ('rawlink', 'rawunlink', 'rawlink_inline'):
+                elif kind in ('rawlink', 'rawunlink', 'rawlink_inline', 'rawlink_mixed'):
                     tbl = env.assoc[0]
-                    if kind == 'rawlink_inline':
+                    if kind == 'rawlink_mixed':
+                        # one column inline, the other as an execution parameter
+                        s.execute(tbl.insert().values(article_id=op[1]), [{'label_id': op[2]}])
+                    elif kind == 'rawlink_inline':
                         s.execute(tbl.insert().values(article_id=op[1], label_id=op[2]))
                     elif kind == 'rawlink':
                         s.execute(tbl.insert(), {'article_id': op[1], 'label_id': op[2]})
@@ -1349,6 +1360,31 @@ def run_program(env, cfg, prog, record=True, plain=False, fault=None, emulate_ac
                         if nm_ in vtb.c:
                             act_problem = 'excluded column %s.%s has a counterpart %s in the version table' % (
                                 part['cls'].__name__, k, nm_)
+        if act_problem is None and rec and env.versioned and cfg.get('check_changesets'):
+            # version.changeset = the column-wise difference to the preceding version, over ALL mapped columns of the
+            # class (for a joined-table subclass: those of the parent tables too)
+            s3 = env.session()
+            try:
+                for cls in classes:
+                    if not hasattr(cls, '__versioned__') or not env.manager.option(cls, 'versioning'):
+                        continue
+                    V = env.version_class(cls)
+                    keys = [k for k in sa.inspect(cls).columns.keys() if hasattr(V, k) and not effective_excluded(env, cls, k)]
+                    for v in s3.query(V).all():
+                        if type(v) is not V:
+                            continue
+                        prev = v.previous
+                        exp = {}
+                        for k in keys:
+                            old = getattr(prev, k) if prev is not None else None
+                            if old != getattr(v, k):
+                                exp[k] = [old, getattr(v, k)]
+                        got = {k: list(x) for k, x in v.changeset.items()}
+                        if got != exp and act_problem is None:
+                            act_problem = 'changeset of %s %r is %r, the difference to the preceding version is %r' % (
+                                V.__name__, sa.inspect(v).identity, got, exp)
+            finally:
+                s3.close()
         if act_problem is None and rec and env.versioned and cfg.get('txargs'):
             # every transaction record carries the attribute the plugin supplied
             txt = env.manager.transaction_cls.__table__
